@@ -455,7 +455,7 @@ func runC10(t *testing.T, c simrt.Chooser, o Opts) *Out {
 	var t0, t1 time.Duration
 	returned := false
 	var tcpn *simnet.Net
-	res := simrt.Execute(t, simrt.Config{Chooser: c, Trace: o.Trace, MaxSteps: 100_000, MaxVirt: 10 * time.Hour}, func(r *simrt.Run) {
+	res := simrt.Execute(t, simrt.Config{Chooser: c, Trace: o.Trace, MaxSteps: 100_000, MaxVirt: 6*timeout + time.Minute, Sentinel: time.Hour}, func(r *simrt.Run) {
 		srv.run = r
 		tcpn = simnet.Install(r)
 		mode := map[string]int{"accept": simnet.Accept, "refuse": simnet.Refuse, "blackhole": simnet.Blackhole}[sc.Connect]
@@ -494,8 +494,8 @@ func runC10(t *testing.T, c simrt.Chooser, o Opts) *Out {
 		out.violate("C10.panic", sig+"/"+firstLine(res.Panics[0].Value), "panic in %s: %s\n%s", res.Panics[0].G, res.Panics[0].Value, trimStack(res.Panics[0].Stack))
 		return out
 	}
-	if !returned {
-		out.violate("C10.hang", sig+"/"+res.End.String(), "the probe did not return: %v at %v (timeout %v); parked %v", res.End, res.Virt, timeout, firstN(res.Blocked, 6))
+	if !returned || res.End != simrt.EndDriverReturned {
+		out.violate("C10.hang", sig+"/"+res.End.String(), "the probe did not return: %v at virtual %v (configured timeout %v per request); responses %s=%+v %s=%+v", res.End, res.Virt, timeout, primary, *sc.Resp[primary], secondary, *sc.Resp[secondary])
 		return out
 	}
 	elapsed := t1 - t0
